@@ -653,6 +653,16 @@ def _cast_roundtrip_known_values_fit(
     return value_min >= target_min and value_max <= target_max
 
 
+def _would_duplicate_graph_output(
+    graph: ir.Graph, replaced: ir.Value, replacement: ir.Value
+) -> bool:
+    """Replacing one model output by a value that already is a model output would
+    list the same value twice (and drop one output name)."""
+    return _value_is_graph_output(graph, replaced) and _value_is_graph_output(
+        graph, replacement
+    )
+
+
 def remove_redundant_casts_ir(graph: ir.Graph) -> None:
     nodes = list(graph)
     if not nodes:
@@ -704,6 +714,9 @@ def remove_redundant_casts_ir(graph: ir.Graph) -> None:
                             if (
                                 next_target is not None
                                 and next_target == src_dtype
+                                and not _would_duplicate_graph_output(
+                                    graph, next_outs[0], src_input
+                                )
                                 and (
                                     _cast_roundtrip_is_value_preserving(
                                         src_dtype, target_code
@@ -741,6 +754,8 @@ def remove_redundant_casts_ir(graph: ir.Graph) -> None:
                 continue
             src_val = src_input
             out_val = outs[0]
+            if _would_duplicate_graph_output(graph, out_val, src_val):
+                continue
             ir.convenience.replace_all_uses_with(
                 out_val, src_val, replace_graph_outputs=True
             )
